@@ -4,6 +4,7 @@ import (
 	"go/ast"
 	"go/token"
 	"math/big"
+	"strings"
 )
 
 // C03: the "almost full" factor in getCertDuringHandshake:
@@ -48,4 +49,407 @@ func emitC03(t *tr) {
 	}
 	t.p("Definition almost_full_num : nat := %s%%nat. (* cacheCapacity*%s in getCertDuringHandshake *)\n", r.Num().String(), lits[0].Value)
 	t.p("Definition almost_full_den : nat := %s%%nat.\n", r.Denom().String())
+}
+
+// ---- C03: the shapes of the lookup code that Lookup/Model.v writes out by hand ----
+//
+// Emitted as plain data; Props/C03.v (C03_code_shape_today) states what the model was written
+// against, so a re-ordered or re-guarded statement makes that statement stop checking.
+func init() { items = append(items, emitC03Shape) }
+
+// c03Calls collects, in source order, the calls `<recv>.<name>(...)` in n.
+func c03Calls(n ast.Node, fun string) []*ast.CallExpr {
+	var out []*ast.CallExpr
+	ast.Inspect(n, func(m ast.Node) bool {
+		if c, ok := m.(*ast.CallExpr); ok && exprStr(c.Fun) == fun {
+			out = append(out, c)
+		}
+		return true
+	})
+	return out
+}
+
+// c03SelectAssigns: the statements `cert, <flag> = cfg.selectCert(hello, <arg>)` of a block, in
+// source order, as "<arg>:<flag>".
+func c03SelectAssigns(n ast.Node) []string {
+	var out []string
+	ast.Inspect(n, func(m ast.Node) bool {
+		as, ok := m.(*ast.AssignStmt)
+		if !ok || len(as.Lhs) != 2 || len(as.Rhs) != 1 {
+			return true
+		}
+		c, ok := as.Rhs[0].(*ast.CallExpr)
+		if !ok || exprStr(c.Fun) != "cfg.selectCert" || len(c.Args) != 2 {
+			return true
+		}
+		out = append(out, exprStr(c.Args[1])+":"+exprStr(as.Lhs[1]))
+		return true
+	})
+	return out
+}
+
+func coqStrList(ss []string) string {
+	var parts []string
+	for _, s := range ss {
+		parts = append(parts, coqStr(s))
+	}
+	return "[" + strings.Join(parts, "; ") + "]"
+}
+
+func emitC03Shape(t *tr) {
+	// 1. getCertificateFromCache: if name == "" { addr; normDefault } else { name; loop candidate }; normFallback
+	fd := t.funcs["Config.getCertificateFromCache"]
+	if fd == nil || fd.Body == nil {
+		t.errf("missing Config.getCertificateFromCache")
+		return
+	}
+	var top *ast.IfStmt
+	var tail []ast.Stmt
+	for i, st := range fd.Body.List {
+		if is, ok := st.(*ast.IfStmt); ok {
+			if be, ok := is.Cond.(*ast.BinaryExpr); ok && be.Op == token.EQL && exprStr(be.X) == "name" && exprStr(be.Y) == `""` {
+				top = is
+				tail = fd.Body.List[i+1:]
+				break
+			}
+		}
+	}
+	if top == nil || top.Else == nil {
+		t.errf("getCertificateFromCache: no `if name == \"\" { ... } else { ... }`")
+		return
+	}
+	if len(fd.Body.List) == 0 {
+		t.errf("getCertificateFromCache: empty body")
+		return
+	}
+	if as, ok := fd.Body.List[0].(*ast.AssignStmt); !ok || len(as.Rhs) != 1 || exprStr(as.Rhs[0]) != "normalizedName(...)" || exprStr(as.Lhs[0]) != "name" {
+		t.errf("getCertificateFromCache: does not start with name := normalizedName(...)")
+		return
+	}
+	noSNI := c03SelectAssigns(top.Body)
+	withSNI := c03SelectAssigns(top.Else)
+	var fb []string
+	for _, st := range tail {
+		fb = append(fb, c03SelectAssigns(st)...)
+	}
+	// every selectCert assignment must be followed by `if <flag> { return }`
+	nRet := 0
+	ast.Inspect(fd.Body, func(m ast.Node) bool {
+		if is, ok := m.(*ast.IfStmt); ok && is.Else == nil && len(is.Body.List) == 1 {
+			if _, isRet := is.Body.List[0].(*ast.ReturnStmt); isRet {
+				if id := exprStr(is.Cond); id == "matched" || id == "defaulted" {
+					nRet++
+				}
+			}
+		}
+		return true
+	})
+	if nRet != len(noSNI)+len(withSNI)+len(fb) {
+		t.errf("getCertificateFromCache: %d selectCert assignments but %d `if matched/defaulted { return }`", len(noSNI)+len(withSNI)+len(fb), nRet)
+		return
+	}
+	// the wildcard loop: labels := strings.Split(name, "."); for i := range labels { labels[i] = "*"; candidate := strings.Join(labels, ".") ... }
+	loopOK := false
+	star, sepSplit, sepJoin := "", "", ""
+	ast.Inspect(top.Else, func(m ast.Node) bool {
+		switch x := m.(type) {
+		case *ast.AssignStmt:
+			if len(x.Lhs) == 1 && exprStr(x.Lhs[0]) == "labels" && len(x.Rhs) == 1 {
+				if c, ok := x.Rhs[0].(*ast.CallExpr); ok && exprStr(c.Fun) == "strings.Split" && len(c.Args) == 2 && exprStr(c.Args[0]) == "name" {
+					sepSplit, _ = t.strLit(c.Args[1], "strings.Split separator")
+				}
+			}
+		case *ast.RangeStmt:
+			if exprStr(x.X) != "labels" || x.Key == nil || x.Value != nil || len(x.Body.List) < 2 {
+				return true
+			}
+			k := exprStr(x.Key)
+			a0, ok0 := x.Body.List[0].(*ast.AssignStmt)
+			a1, ok1 := x.Body.List[1].(*ast.AssignStmt)
+			if !ok0 || !ok1 || len(a0.Lhs) != 1 || len(a1.Rhs) != 1 {
+				return true
+			}
+			ix, isIx := a0.Lhs[0].(*ast.IndexExpr)
+			if !isIx || exprStr(ix.X) != "labels" || exprStr(ix.Index) != k {
+				return true
+			}
+			star, _ = t.strLit(a0.Rhs[0], "wildcard label")
+			if c, ok := a1.Rhs[0].(*ast.CallExpr); ok && exprStr(c.Fun) == "strings.Join" && len(c.Args) == 2 && exprStr(c.Args[0]) == "labels" && exprStr(a1.Lhs[0]) == "candidate" {
+				sepJoin, _ = t.strLit(c.Args[1], "strings.Join separator")
+				loopOK = true
+			}
+		}
+		return true
+	})
+	if !loopOK {
+		t.errf("getCertificateFromCache: wildcard loop `for i := range labels { labels[i] = \"*\"; candidate := strings.Join(labels, \".\") ...}` not found")
+		return
+	}
+	t.p("(* getCertificateFromCache: the selectCert calls (argument:flag) without SNI, with SNI, afterwards; each followed by `if flag { return }` *)\n")
+	t.p("Definition lookup_order_no_sni : list str := %s.\n", coqStrList(noSNI))
+	t.p("Definition lookup_order_sni : list str := %s.\n", coqStrList(withSNI))
+	t.p("Definition lookup_order_tail : list str := %s.\n", coqStrList(fb))
+	t.p("Definition lookup_wildcard_label : str := %s. Definition lookup_split_sep : str := %s. Definition lookup_join_sep : str := %s. (* labels[i] = %q in `for i := range labels` *)\n",
+		coqStr(star), coqStr(sepSplit), coqStr(sepJoin), star)
+
+	// 2. normalizedName: strings.ToLower(strings.TrimSpace(serverName))
+	if nn := t.funcs["normalizedName"]; nn != nil {
+		ok := false
+		if c := soleReturnCall(nn); c != nil && exprStr(c.Fun) == "strings.ToLower" && len(c.Args) == 1 {
+			if in, isCall := c.Args[0].(*ast.CallExpr); isCall && exprStr(in.Fun) == "strings.TrimSpace" && len(in.Args) == 1 && exprStr(in.Args[0]) == "serverName" {
+				ok = true
+			}
+		}
+		if !ok {
+			t.errf("normalizedName: not `return strings.ToLower(strings.TrimSpace(serverName))`")
+			return
+		}
+		t.p("Definition normalized_name_is_lower_of_trim : bool := true. (* normalizedName = ToLower . TrimSpace *)\n")
+	} else {
+		t.errf("missing normalizedName")
+		return
+	}
+
+	// 3. DefaultCertificateSelector: fast path for one choice, error for none, loop: unsupported -> continue;
+	//    best = choice; unexpired -> return choice; finally return best
+	ds := t.funcs["DefaultCertificateSelector"]
+	if ds == nil || ds.Body == nil {
+		t.errf("missing DefaultCertificateSelector")
+		return
+	}
+	var codes []string
+	ast.Inspect(ds.Body, func(m ast.Node) bool {
+		switch x := m.(type) {
+		case *ast.IfStmt:
+			if be, ok := x.Cond.(*ast.BinaryExpr); ok && exprStr(be.X) == "len(...)" {
+				codes = append(codes, "len"+be.Op.String()+exprStr(be.Y))
+			}
+			if x.Init != nil {
+				if as, ok := x.Init.(*ast.AssignStmt); ok && len(as.Rhs) == 1 && exprStr(as.Rhs[0]) == "hello.SupportsCertificate(...)" {
+					if be, ok := x.Cond.(*ast.BinaryExpr); ok && be.Op == token.NEQ && exprStr(be.Y) == "nil" && len(x.Body.List) == 1 {
+						if br, ok := x.Body.List[0].(*ast.BranchStmt); ok && br.Tok == token.CONTINUE {
+							codes = append(codes, "unsupported-continue")
+						}
+					}
+				}
+			}
+			if be, ok := x.Cond.(*ast.BinaryExpr); ok && be.Op == token.LAND && exprStr(be.X) == "now.After(...)" && exprStr(be.Y) == "now.Before(...)" {
+				if len(x.Body.List) == 1 {
+					if rs, ok := x.Body.List[0].(*ast.ReturnStmt); ok && len(rs.Results) == 2 && exprStr(rs.Results[0]) == "choice" {
+						ba, bb := be.X.(*ast.CallExpr), be.Y.(*ast.CallExpr)
+						if len(ba.Args) == 1 && len(bb.Args) == 1 {
+							codes = append(codes, "valid("+exprStr(ba.Args[0])+","+exprStr(bb.Args[0])+")-return-choice")
+						}
+					}
+				}
+			}
+		case *ast.AssignStmt:
+			if len(x.Lhs) == 1 && exprStr(x.Lhs[0]) == "best" && len(x.Rhs) == 1 {
+				codes = append(codes, "best="+exprStr(x.Rhs[0]))
+			}
+		case *ast.ReturnStmt:
+			if len(x.Results) == 2 && exprStr(x.Results[0]) == "best" {
+				codes = append(codes, "return-best")
+			}
+		}
+		return true
+	})
+	t.p("(* DefaultCertificateSelector, in source order *)\nDefinition default_selector_shape : list str := %s.\n", coqStrList(codes))
+
+	// 4. selectCert: no choices and no custom selector -> (zero, false); custom selector and no choices -> getAllCerts
+	sc := t.funcs["Config.selectCert"]
+	if sc == nil || sc.Body == nil {
+		t.errf("missing Config.selectCert")
+		return
+	}
+	var scCodes []string
+	ast.Inspect(sc.Body, func(m ast.Node) bool {
+		switch x := m.(type) {
+		case *ast.AssignStmt:
+			if len(x.Lhs) == 1 && exprStr(x.Lhs[0]) == "choices" && len(x.Rhs) == 1 {
+				scCodes = append(scCodes, "choices="+exprStr(x.Rhs[0]))
+			}
+		case *ast.IfStmt:
+			if be, ok := x.Cond.(*ast.BinaryExpr); ok {
+				scCodes = append(scCodes, "if "+exprStr(be.X)+be.Op.String()+exprStr(be.Y))
+			}
+		case *ast.CallExpr:
+			if f := exprStr(x.Fun); f == "DefaultCertificateSelector" || f == "cfg.CertSelection.SelectCertificate" {
+				scCodes = append(scCodes, "call "+f)
+			}
+		}
+		return true
+	})
+	t.p("Definition select_cert_shape : list str := %s.\n", coqStrList(scCodes))
+
+	// 5. loadCertFromStorage: exact name, on fs.ErrNotExist the name with labels[0] = "*"
+	lf := t.funcs["Config.loadCertFromStorage"]
+	if lf == nil || lf.Body == nil {
+		t.errf("missing Config.loadCertFromStorage")
+		return
+	}
+	var lfCodes []string
+	ast.Inspect(lf.Body, func(m ast.Node) bool {
+		switch x := m.(type) {
+		case *ast.IfStmt:
+			if c, ok := x.Cond.(*ast.CallExpr); ok && exprStr(c.Fun) == "errors.Is" && len(c.Args) == 2 {
+				lfCodes = append(lfCodes, "if errors.Is(err,"+exprStr(c.Args[1])+")")
+			}
+		case *ast.AssignStmt:
+			if len(x.Lhs) == 1 {
+				if ix, ok := x.Lhs[0].(*ast.IndexExpr); ok && exprStr(ix.X) == "labels" {
+					lit, _ := t.strLit(x.Rhs[0], "loadCertFromStorage wildcard label")
+					lfCodes = append(lfCodes, "labels["+exprStr(ix.Index)+"]="+lit)
+				}
+			}
+			if len(x.Rhs) == 1 {
+				if c, ok := x.Rhs[0].(*ast.CallExpr); ok && exprStr(c.Fun) == "cfg.CacheManagedCertificate" && len(c.Args) == 2 {
+					lfCodes = append(lfCodes, "load "+exprStr(c.Args[1]))
+				}
+			}
+		}
+		return true
+	})
+	t.p("Definition load_from_storage_shape : list str := %s.\n", coqStrList(lfCodes))
+
+	// 6. getNameFromClientHello: idna.Lookup.ToASCII(strings.TrimSpace(hello.ServerName)); name != "" -> name;
+	//    DefaultServerName != "" -> normalizedName(DefaultServerName); localIPFromConn(hello.Conn)
+	gn := t.funcs["Config.getNameFromClientHello"]
+	if gn == nil || gn.Body == nil {
+		t.errf("missing Config.getNameFromClientHello")
+		return
+	}
+	var gnCodes []string
+	ast.Inspect(gn.Body, func(m ast.Node) bool {
+		switch x := m.(type) {
+		case *ast.AssignStmt:
+			if len(x.Rhs) == 1 {
+				if c, ok := x.Rhs[0].(*ast.CallExpr); ok && exprStr(c.Fun) == "idna.Lookup.ToASCII" && len(c.Args) == 1 {
+					arg := exprStr(c.Args[0])
+					if in, ok := c.Args[0].(*ast.CallExpr); ok && len(in.Args) == 1 {
+						arg = exprStr(in.Fun) + "(" + exprStr(in.Args[0]) + ")"
+					}
+					gnCodes = append(gnCodes, "idna "+arg)
+				}
+			}
+		case *ast.IfStmt:
+			if be, ok := x.Cond.(*ast.BinaryExpr); ok {
+				gnCodes = append(gnCodes, "if "+exprStr(be.X)+be.Op.String()+exprStr(be.Y))
+			}
+		case *ast.ReturnStmt:
+			if len(x.Results) == 2 {
+				r := exprStr(x.Results[0])
+				if c, ok := x.Results[0].(*ast.CallExpr); ok && len(c.Args) == 1 {
+					r = exprStr(c.Fun) + "(" + exprStr(c.Args[0]) + ")"
+				}
+				gnCodes = append(gnCodes, "return "+r)
+			}
+		}
+		return true
+	})
+	t.p("Definition hello_name_shape : list str := %s.\n", coqStrList(gnCodes))
+
+	// 7. the tail of getCertDuringHandshake: loadDynamically := cfg.OnDemand != nil || cacheAlmostFull; the
+	//    comparison operators of cacheAlmostFull
+	gd := t.funcs["Config.getCertDuringHandshake"]
+	var afOps []string
+	ast.Inspect(gd.Body, func(m ast.Node) bool {
+		as, ok := m.(*ast.AssignStmt)
+		if !ok || len(as.Lhs) != 1 || len(as.Rhs) != 1 {
+			return true
+		}
+		switch exprStr(as.Lhs[0]) {
+		case "cacheAlmostFull", "loadDynamically":
+			ast.Inspect(as.Rhs[0], func(k ast.Node) bool {
+				if be, ok := k.(*ast.BinaryExpr); ok {
+					afOps = append(afOps, exprStr(as.Lhs[0])+":"+exprStr(be.X)+be.Op.String()+exprStr(be.Y))
+				}
+				return true
+			})
+		}
+		return true
+	})
+	t.p("Definition almost_full_shape : list str := %s.\n", coqStrList(afOps))
+}
+
+// ---- C03: GetCertificateWithContext (Lookup/Model.v get_certificate) ----
+func init() { items = append(items, emitC03Entry) }
+
+func condStr(e ast.Expr) string {
+	switch x := e.(type) {
+	case *ast.BinaryExpr:
+		if x.Op == token.LAND || x.Op == token.LOR {
+			return condStr(x.X) + " " + x.Op.String() + " " + condStr(x.Y)
+		}
+		return operandStr(x.X) + x.Op.String() + operandStr(x.Y)
+	case *ast.ParenExpr:
+		return "(" + condStr(x.X) + ")"
+	}
+	return operandStr(e)
+}
+
+func operandStr(e ast.Expr) string {
+	switch x := e.(type) {
+	case *ast.IndexExpr:
+		return operandStr(x.X) + "[" + operandStr(x.Index) + "]"
+	case *ast.CallExpr:
+		var as []string
+		for _, a := range x.Args {
+			as = append(as, operandStr(a))
+		}
+		return exprStr(x.Fun) + "(" + strings.Join(as, ",") + ")"
+	case *ast.UnaryExpr:
+		return x.Op.String() + operandStr(x.X)
+	}
+	return exprStr(e)
+}
+
+func emitC03Entry(t *tr) {
+	fd := t.funcs["Config.GetCertificateWithContext"]
+	if fd == nil || fd.Body == nil {
+		t.errf("missing Config.GetCertificateWithContext")
+		return
+	}
+	var codes []string
+	for _, st := range fd.Body.List {
+		switch x := st.(type) {
+		case *ast.IfStmt:
+			c := "if "
+			if x.Init != nil {
+				if as, ok := x.Init.(*ast.AssignStmt); ok && len(as.Rhs) == 1 {
+					if call, ok := as.Rhs[0].(*ast.CallExpr); ok && exprStr(call.Fun) == "cfg.emit" && len(call.Args) >= 2 {
+						ev, _ := t.strLit(call.Args[1], "event name")
+						c += "err:=cfg.emit(" + ev + "); "
+					}
+				}
+			}
+			c += condStr(x.Cond)
+			// how the branch ends
+			if n := len(x.Body.List); n > 0 {
+				if rs, ok := x.Body.List[n-1].(*ast.ReturnStmt); ok {
+					var rr []string
+					for _, r := range rs.Results {
+						rr = append(rr, operandStr(r))
+					}
+					c += " -> return " + strings.Join(rr, ",")
+				} else {
+					c += " -> continue"
+				}
+			}
+			codes = append(codes, c)
+		case *ast.AssignStmt:
+			if len(x.Rhs) == 1 {
+				if call, ok := x.Rhs[0].(*ast.CallExpr); ok && exprStr(call.Fun) == "cfg.getCertDuringHandshake" {
+					codes = append(codes, "cert,err:="+operandStr(call))
+				}
+			}
+		case *ast.ReturnStmt:
+			var rr []string
+			for _, r := range x.Results {
+				rr = append(rr, operandStr(r))
+			}
+			codes = append(codes, "return "+strings.Join(rr, ","))
+		}
+	}
+	t.p("(* GetCertificateWithContext, top-level statements in source order *)\nDefinition get_certificate_shape : list str := %s.\n", coqStrList(codes))
 }
